@@ -93,7 +93,19 @@ func (g *pgen) stmt(d int, vars []string, inLoop, inFn bool, ind string) string 
 		return fmt.Sprintf("%s%s = %s + %s;\n", ind, acc, acc, g.expr(1, vars))
 	}
 	in2 := ind + "    "
-	switch g.r.Intn(16) {
+	switch g.r.Intn(19) {
+	case 16: // a function literal that captures nothing, made and called on the spot
+		lf := g.fresh("lf")
+		return fmt.Sprintf("%slet %s = fn(q: int) -> int { if q > 4 { return q %% 9; } q * 2 %% 9 };\n%s%s = %s + %s(%s);\n", ind, lf, ind, acc, acc, lf, g.expr(1, vars))
+	case 17: // a value-carrying if / try whose value nobody uses
+		if g.r.Intn(2) == 0 {
+			return fmt.Sprintf("%sif %s { %s } else { %s };\n", ind, g.cond(1, vars), g.expr(1, vars), g.expr(1, vars))
+		}
+		return fmt.Sprintf("%stry { if %s { throw(\"u\"); } 1 * %s } catch %s { %s };\n", ind, g.cond(1, vars), g.expr(1, vars), g.fresh("x"), g.expr(1, vars))
+	case 18: // a loop over a literal that is left early
+		ev := g.fresh("c")
+		kv := g.fresh("k")
+		return fmt.Sprintf("%slet %s = 0;\n%sfor %s in \"generator\" {\n%s%s = %s + 1;\n%sif %s > %d { break; }\n%s}\n%s%s = %s + %s;\n", ind, kv, ind, ev, in2, kv, kv, in2, kv, 1+g.r.Intn(4), ind, ind, acc, acc, kv)
 	case 0:
 		return fmt.Sprintf("%s%s = %s + %s;\n", ind, acc, acc, g.expr(2, vars))
 	case 1:
